@@ -10,16 +10,6 @@ From J5V.proofs Require Import StrcaseProofs EntityProofs EntitySpec EntitySpecP
 Import ListNotations.
 Local Open Scope N_scope.
 
-(* the keys List is scoped by: key-typed keys flagged shardKey - primary or not *)
-Definition key_in_list (k : ekey) : bool := key_typed k && k_shard k.
-Definition shard_key_names (e : entity) : list bytes :=
-  map (fun k => to_snake (key_name k)) (filter key_in_list (e_keys e)).
-
-(* the path parameters of List are the shard keys in declaration order *)
-Definition spec_list_path (e : entity) (cs : list component) : Prop :=
-  forall s g l v, In s (svcs_in cs 1) -> is_query_svc s = true -> sv_methods s = [g; l; v] ->
-    rule_params (mt_path l) = shard_key_names e.
-
 Lemma list_keys_incl_get_keys : forall e u, In u (list_keys e) -> In u (get_keys e).
 Proof.
   intros e u H. unfold list_keys, get_keys in *. apply in_map_iff in H. destruct H as [k [<- Hk]].
@@ -120,18 +110,6 @@ Lemma key_flags_sample_ok :
   /\ path_key_names key_flags_sample = [bs "foo_id"; bs "both_id"; bs "shard_id"]
   /\ nth 1 (query_paths key_flags_sample) [] = bs "/foo/v1/foo/q/{both_id}/{shard_id}".
 Proof. repeat split; vm_compute; reflexivity. Qed.
-
-(* ---- the List request: the shard keys, then page and query; the key fields are the very fields of
-   the Get and Events requests (same type, key options, required / optional flags) --------------- *)
-Definition spec_list_request (e : entity) (cs : list component) : Prop :=
-  forall s g l v, In s (svcs_in cs 1) -> is_query_svc s = true -> sv_methods s = [g; l; v] ->
-    exists mg ml mv,
-      has_msg cs 1 mg /\ m_name mg = mt_in g /\ has_msg cs 1 ml /\ m_name ml = mt_in l
-      /\ has_msg cs 1 mv /\ m_name mv = mt_in v
-      /\ map f_json (m_fields ml)
-         = map key_name (filter key_in_list (e_keys e)) ++ [bs "page"; bs "query"]
-      /\ (forall f, In f (firstn (length (shard_key_names e)) (m_fields ml)) ->
-            In f (m_fields mg) /\ In f (m_fields mv)).
 
 Lemma list_request_shape : forall e,
   exists g l v,
